@@ -465,7 +465,9 @@ fn c09(thorough: bool) -> Report {
         for (what, mut req) in requests(&uri) {
             // further additions in varying order
             let adds = [("zz-last", 1), ("aa-first", 2), ("job-uri-x", 3), ("requesting-user-name2", 4), ("job-uri", 5), ("job-id", 6),
-                        ("job-id-extra", 7), ("printer-uri-supported", 8), ("attributes-charset2", 9)];
+                        ("job-id-extra", 7), ("printer-uri-supported", 8), ("attributes-charset2", 9),
+                        // differently-cased twins of leading attributes are ordinary attributes
+                        ("Job-Id", 10), ("ATTRIBUTES-CHARSET", 11), ("Printer-Uri", 12)];
             let k = r.cases % adds.len();
             for i in 0..adds.len() { let (n, v) = adds[(i + k) % adds.len()]; req.attributes_mut().add(DelimiterTag::OperationAttributes, IppAttribute::new(n, IppValue::Integer(v))); }
             let bytes = req.to_bytes().to_vec();
@@ -538,7 +540,7 @@ fn c10(_thorough: bool) -> Report {
                 let mut want = base_model(Some(&canon));
                 if let Some(u) = user { b = b.user_name("ignored-first").user_name(u); model_add(&mut want, 1, "requesting-user-name", name(u)); }
                 if let Some(t) = title { b = b.job_title(t); model_add(&mut want, 1, "job-name", name(t)); }
-                let extras = [("copies", 1), ("sides", 2), ("copies", 3)];
+                let extras = [("copies", 1), ("Copies", 2), ("copies", 3)];
                 for (n, v) in extras.iter().take(n_extra) { b = b.attribute(IppAttribute::new(n, IppValue::Integer(*v))); model_add(&mut want, 2, n, RVal::Int(0x21, *v)); }
                 if n_extra == 2 { b = b.attributes(vec![IppAttribute::new("copies", IppValue::Integer(3))]); model_add(&mut want, 2, "copies", RVal::Int(0x21, 3)); }
                 if check_req(&mut r, "Print-Job", b.build().into_ipp_request(), 0x0002, 0x0101, want, &doc) { return r; }
@@ -576,7 +578,8 @@ fn c10(_thorough: bool) -> Report {
     }
     // Get-Printer-Attributes: requested-attributes as keywords in the order given; accumulating setters keep everything
     let calls: Vec<Vec<Vec<&str>>> = vec![vec![], vec![vec!["a"]], vec![vec!["b", "a"]], vec![vec!["x"], vec!["y", "z"]], vec![vec!["p", "q"], vec![], vec!["r"]],
-                                          vec![vec!["dup"], vec!["b", "dup", "a"]], vec![vec!["z", "y"], vec!["x"], vec!["Upper", " spaced "]]];
+                                          vec![vec!["dup"], vec!["b", "dup", "a"]], vec![vec!["z", "y"], vec!["x"], vec!["Upper", " spaced "]],
+                                          vec![vec!["x", "x", "y"], vec!["y", "x"]], vec![vec!["same"], vec!["same"]]];
     for seq in calls {
         let mut b = IppOperationBuilder::get_printer_attributes(uri.clone());
         let mut all: Vec<&str> = vec![];
@@ -613,7 +616,8 @@ fn c10(_thorough: bool) -> Report {
 fn container(_thorough: bool) -> Report {
     let mut r = Report::new("container");
     let tags = [DelimiterTag::OperationAttributes, DelimiterTag::JobAttributes, DelimiterTag::PrinterAttributes];
-    let names = ["n1", "n2"];
+    // two names that differ only in case: different names
+    let names = ["n1", "N1"];
     let n_ops = tags.len() * names.len() * 2;
     let mut seq = vec![0usize; 0];
     fn rec(r: &mut Report, seq: &mut Vec<usize>, n_ops: usize, tags: &[DelimiterTag; 3], names: &[&str; 2]) -> bool {
